@@ -1,0 +1,14 @@
+//go:build verif
+
+package bep44
+
+import "time"
+
+// Verification hook (build tag verif): equivalent to d elapsing since the item was stored.
+func (i *Item) VerifAge(d time.Duration) {
+	i.created = i.created.Add(-d)
+}
+
+func (i *Item) VerifCreated() time.Time {
+	return i.created
+}
